@@ -276,7 +276,7 @@ func reportCase(t testing.TB, prop, kind string, input any, msg string) {
 		fmt.Printf("VERIF-REPLAY %s %s\n", prop, p)
 	}
 	t.Errorf("%s/%s violated: %s\n  input: %s", prop, kind, msg, truncate(string(raw), 400))
-	if n >= 3 {
+	if n >= 3 && os.Getenv("VERIF_NOSTOP") == "" {
 		t.FailNow() // enough distinct reproductions; do not flood the log
 	}
 }
